@@ -254,6 +254,7 @@ impl<S, I: Snap> Stream for SimTransport<S, I> {
         match s.inbound.pop_front() {
             Some(Ok(item)) => {
                 let m = item.snap();
+                s.streak = 0;
                 drop(s);
                 self.log(IoOp::Next, None, IoRes::Item(m));
                 Poll::Ready(Some(Ok(item)))
